@@ -53,6 +53,7 @@ func runC08(t *simrt.Tape, o Opts) Outcome {
 				parts[i] = fmt.Sprintf("q%d", i)
 			}
 		}
+		faulty := !async && t.Choose(4, "faulty") == 1
 		p := w.NewProc(pol)
 		// seed: some records so that decrypts have something to work on (sequential, fault-free)
 		var seedRecs []*world.Rec
@@ -73,6 +74,13 @@ func runC08(t *simrt.Tape, o Opts) Outcome {
 			w.Advance(pol.Expire + time.Hour*25)
 		}
 		w.Drain()
+		if faulty {
+			// failures inside SOME operations (those may fail); every operation in which nothing was
+			// injected must still succeed - a failing neighbour must not destroy keys others use
+			enableRandomFaults(w, t, []string{"ms.err", "kms.err", "aead.err", "alloc.err"}, pol.Expire, pol.Revoke)
+			w.Faults.Kinds["aead.err"] = true
+			w.Faults.Kinds["ms.readonly-faults"] = true
+		}
 		nclients := 2 + t.Choose(scale(o, 5, 7), "nclients")
 		opsPer := 2 + t.Choose(scale(o, 5, 10), "opsper")
 		if async {
@@ -123,6 +131,9 @@ func runC08(t *simrt.Tape, o Opts) Outcome {
 						if op.Panic != "" {
 							return
 						}
+						if op.Err != nil && op.Faulted > 0 {
+							continue
+						}
 						if op.Err != nil {
 							w.Violate("op-failed", "decrypt-failed/"+errClass(op.Err), "decrypt of r%d by client %d failed although neither its session nor the factory was being closed: %v", rec.N, ci, op.Err)
 							return
@@ -137,6 +148,9 @@ func runC08(t *simrt.Tape, o Opts) Outcome {
 						r, op := w.Encrypt(se, pl)
 						if op.Panic != "" {
 							return
+						}
+						if r == nil && op.Faulted > 0 {
+							continue
 						}
 						if r == nil {
 							w.Violate("op-failed", "encrypt-failed/"+errClass(op.Err), "encrypt by client %d on partition %q failed although neither its session nor the factory was being closed: %v", ci, part, op.Err)
@@ -162,6 +176,7 @@ func runC08(t *simrt.Tape, o Opts) Outcome {
 			s.Join(tk)
 		}
 		w.Drain()
+		w.Faults.Off = true
 		if len(w.Ledger.UAC) > 0 && len(w.Viols) == 0 {
 			e := w.Ledger.UAC[0]
 			w.Violate("use-after-close", "use-after-close", "secret #%d was accessed (%s) after its Close had begun, by %v", e.Secret.N, e.What, opDesc(e.Op))
